@@ -310,7 +310,9 @@ class PandasCheckBackend(BaseCheckBackend):
                 continue
             failure_cases_list.append(
                 cases.to_frame()
-                .assign(column=col)
+                # a tuple label (MultiIndex columns) must not be broadcast
+                # element by element
+                .assign(column=[col] * len(cases))
                 .rename_axis("index")
                 .reset_index()
             )
